@@ -439,6 +439,7 @@ def _tab_arg(tab, conv, rng):
 
 
 def se_build(prog, cfg, rng):
+    se_build.handed = []       # the dictionaries handed to the species: the caller still holds them
     kind, cell_env, vol = SE_SPACES[cfg]
     fl = lambda m: float(UO.mono(m))
     made = []
@@ -451,6 +452,7 @@ def se_build(prog, cfg, rng):
         if c != {} or rng.random() < 0.5:
             kw["chstt"] = c
         made.append(Species(**kw))
+        se_build.handed += [v for v in (kw.get("density"), kw.get("chstt")) if isinstance(v, dict)]
     net = RDNetwork(species=made, reactions=[], environments=SE_ENVS)
     if kind == "graph":
         space = RDGraphSpace(nodes=[RDGraphSpaceNode(volume=float(v), environment=e) for v, e in zip(vol, cell_env)], edges=[])
@@ -465,7 +467,10 @@ def se_observe(system):
 
 def _overwrite(given):
     """the caller re-uses, in place, an array it handed over earlier"""
-    if isinstance(given, np.ndarray):
+    if isinstance(given, dict):
+        for k_ in ["default"] + SE_ENVS:          # every entry overwritten, missing ones added
+            given[k_] = (not given.get(k_, False)) if all(isinstance(v, bool) for v in given.values()) else 99.0
+    elif isinstance(given, np.ndarray):
         given[:] = (1 - given) if given.dtype.kind in "iub" else -7.0
     elif isinstance(given, UnitArray):
         given.value[:] = -7.0
@@ -501,7 +506,7 @@ def se_replay(rep, prog, cfg, rng, tag):
     if differs(system, prog, "initial"):
         return
     kept = []
-    handed = []          # arrays the caller handed to the system and still holds
+    handed = list(se_build.handed)          # what the caller handed over (dictionaries to the species, arrays to the system) and still holds
     for k, st in enumerate(prog["steps"]):
         op, a = st["op"], st["args"]
         where = op
@@ -527,9 +532,15 @@ def se_replay(rep, prog, cfg, rng, tag):
             elif op == "regen_chem":
                 system.set_default_chemostats()
             elif op == "edit_dens":
-                system.network.species[a["s"] - 1].density = _tab_arg(st["dens"][a["s"] - 1], fl, rng)
+                given = _tab_arg(st["dens"][a["s"] - 1], fl, rng)
+                system.network.species[a["s"] - 1].density = given
+                if isinstance(given, dict):
+                    handed.append(given)
             elif op == "edit_chs":
-                system.network.species[a["s"] - 1].chstt = _tab_arg(st["chs"][a["s"] - 1], bool, rng)
+                given = _tab_arg(st["chs"][a["s"] - 1], bool, rng)
+                system.network.species[a["s"] - 1].chstt = given
+                if isinstance(given, dict):
+                    handed.append(given)
             elif op == "edit_env":
                 if kind == "graph":
                     system.space.nodes[a["c"]].environment = a["e"]
